@@ -340,6 +340,20 @@ func partialOverlapCollectionName(name1, name2 string) bool {
 	return !match1 && !match2
 }
 
+// isExcludedByTask returns true if the task which owns the collectionName excludes the excludeName,
+// the exclude list of another task says nothing about the collections the owner replicates
+func (e *MetaCDC) isExcludedByTask(uKey string, collectionName string, excludeName string) bool {
+	e.cdcTasks.RLock()
+	defer e.cdcTasks.RUnlock()
+	for _, taskInfo := range e.cdcTasks.data {
+		if getTaskUniqueIDFromInfo(taskInfo) != uKey || !lo.Contains(GetCollectionNamesFromTaskInfo(taskInfo), collectionName) {
+			continue
+		}
+		return lo.Contains(taskInfo.ExcludeCollections, excludeName)
+	}
+	return false
+}
+
 func (e *MetaCDC) checkDuplicateCollection(uKey string,
 	newCollectionNames []string,
 	extraInfo model.ExtraInfo,
@@ -364,7 +378,8 @@ func (e *MetaCDC) checkDuplicateCollection(uKey string,
 			}
 			for _, name := range names {
 				match, containAny := matchCollectionName(name, newCollectionName)
-				if match && containAny && !lo.Contains(e.collectionNames.excludeData[uKey], newCollectionName) {
+				if match && containAny &&
+					!(lo.Contains(e.collectionNames.excludeData[uKey], newCollectionName) && e.isExcludedByTask(uKey, name, newCollectionName)) {
 					duplicateCollections = append(duplicateCollections, newCollectionName)
 					break
 				}
